@@ -210,8 +210,8 @@ def case(ctx, i, rng):
                 continue
         before = snapshot(out)
         path = os.path.join(out, target)
-        spelling = rng.choice(["absolute", "absolute", "relative", "tilde", "file-uri"])
-        given_path = {"absolute": path, "relative": target, "tilde": "~/" + target, "file-uri": "file://" + path}[spelling]
+        spelling = rng.choice(["absolute", "absolute", "relative", "tilde", "file-uri"] + ([] if multifile else ["fsspec-local"]))
+        given_path = {"absolute": path, "relative": target, "tilde": "~/" + target, "file-uri": "file://" + path, "fsspec-local": "local://" + path}[spelling]
         old_home = os.environ.get("HOME")
         os.environ["HOME"] = out
         os.chdir(out)
